@@ -36,6 +36,7 @@ def seq(kind, t): return {'k': 'seq', 'kind': kind, 't': t}
 def tup(*ts): return {'k': 'tuple', 'ts': list(ts)}
 def dct(kt, vt, dd=False): return {'k': 'dict', 'dd': dd, 'kt': kt, 'vt': vt}
 def opt(t): return {'k': 'opt', 't': t}
+def optr(t): return {'k': 'optr', 't': t}     # Union[None, T]: None listed FIRST
 def union(*ts): return {'k': 'union', 'ts': list(ts)}
 def lit(*vs): return {'k': 'lit', 'vs': list(vs)}
 def named(n): return {'k': 'named', 'name': n}
@@ -57,7 +58,7 @@ def hashable_ty(t, model):
         return t['kind'] in ('tuple', 'frozenset') and hashable_ty(t['t'], model)
     if k == 'tuple':
         return all(hashable_ty(x, model) for x in t['ts'])
-    if k == 'opt':
+    if k in ('opt', 'optr'):
         return hashable_ty(t['t'], model)
     if k == 'lit':
         return True
@@ -73,7 +74,7 @@ def subtypes(t, model, into_helpers=True, seen=None):
     seen = seen if seen is not None else set()
     yield t
     k = t['k']
-    if k in ('seq', 'opt'):
+    if k in ('seq', 'opt', 'optr'):
         yield from subtypes(t['t'], model, into_helpers, seen)
     elif k in ('tuple', 'union'):
         for x in t['ts']:
@@ -93,7 +94,7 @@ def subtypes(t, model, into_helpers=True, seen=None):
 
 def f18_free(t, ixd, model):
     k = t['k']
-    if k in ('leaf', 'lit', 'data'):
+    if k in ('leaf', 'lit', 'data', 'optr'):
         return True
     if k == 'seq':
         return f18_free(t['t'], False, model)
@@ -115,7 +116,7 @@ def f18_free(t, ixd, model):
 
 def keyseq_free(t, inkey, model):
     k = t['k']
-    if k in ('leaf', 'lit', 'data'):
+    if k in ('leaf', 'lit', 'data', 'optr'):
         return True
     if k == 'seq':
         return (not inkey) and keyseq_free(t['t'], inkey, model)
@@ -151,6 +152,8 @@ def py_ann(t, model, defined=None):
         return '%s[%s, %s]' % ('defaultdict' if t['dd'] else 'dict', py_ann(t['kt'], model, defined), py_ann(t['vt'], model, defined))
     if k == 'opt':
         return 'Optional[%s]' % py_ann(t['t'], model, defined)
+    if k == 'optr':
+        return 'Union[None, %s]' % py_ann(t['t'], model, defined)
     if k == 'union':
         return 'Union[%s]' % ', '.join(py_ann(x, model, defined) for x in t['ts'])
     if k == 'lit':
@@ -335,6 +338,9 @@ def coq_ty(t, model):
         return '(TDict %s %s %s)' % (dd, coq_ty(t['kt'], model), coq_ty(t['vt'], model))
     if k == 'opt':
         return '(TOpt %s)' % coq_ty(t['t'], model)
+    if k == 'optr':
+        # faithful to the open defect F52: get_string_for_annotation takes args[0] (NoneType) as THE member
+        return '(TOpt (TLeaf LNone))'
     if k == 'union':
         return '(TUnion %s)' % coq_tys([('', x) for x in t['ts']], model)
     if k == 'lit':
